@@ -565,6 +565,61 @@ pub fn extreme(sseed: u64) -> Report {
         }
         last = l;
     }
+    // the same configuration behind the service: a handful of sequential calls, ok and failing in turn
+    let c2 = c.clone();
+    let svc_run = std::panic::catch_unwind(std::panic::AssertUnwindSafe(|| {
+        run_sim(sseed, |sim| {
+            let w = sim.w.clone();
+            let svc = AdaptiveLimiterLayer::new(build_alg(&c2)).layer(w.probe(1));
+            let w2 = w.clone();
+            let a = sim.actor(1, move || {
+                boxed(async move {
+                    let mut svc = svc;
+                    for i in 0..10u64 {
+                        let out = if i % 2 == 0 { Out::Ok } else { Out::Err(1) };
+                        let req = Req::new(i + 1, 0, vec![Step { lat: Lat::Us(0), out }]);
+                        // a limit of 0 legitimately never becomes ready: give up after a few polls
+                        let mut polls = 0;
+                        let ready = std::future::poll_fn(|cx| {
+                            polls += 1;
+                            match tower::Service::poll_ready(&mut svc, cx) {
+                                Poll::Ready(r) => Poll::Ready(Some(r)),
+                                Poll::Pending if polls > 3 => Poll::Ready(None),
+                                Poll::Pending => Poll::Pending,
+                            }
+                        })
+                        .await;
+                        if !matches!(ready, Some(Ok(()))) {
+                            w2.note("not ready");
+                            break;
+                        }
+                        let r = tower::Service::call(&mut svc, req).await;
+                        w2.log(Ev::Resolve { req: i + 1, out: match &r { Ok(x) => Outcome::ok(x), Err(e) => map_err(e) } });
+                    }
+                    w2.note("service-driver-done");
+                })
+            });
+            sim.start_at(0, a);
+            sim.horizon = 1_000_000;
+            sim.poll_cap = 10_000;
+        })
+    }));
+    match svc_run {
+        Err(_) => rep.violate(format!("C13:{name}:panic-at-extreme-config"), format!("building the service panicked: {}; cfg {c:?}", crate::sim::take_last_panic().unwrap_or_default())),
+        Ok((w, _, ())) => {
+            let log = w.take_log();
+            for r in &log {
+                if let Ev::ActorPanic { msg, .. } = &r.ev {
+                    rep.violate(format!("C13:{name}:panic-at-extreme-config"), format!("a call through the service panicked: {msg}; cfg {c:?}"));
+                }
+            }
+            let bad = log.iter().filter(|r| matches!(&r.ev, Ev::Resolve { req, out } if (req % 2 == 1) != matches!(out, Outcome::Ok { .. }))).count();
+            if bad > 0 {
+                rep.violate(format!("C13:{name}:extreme-config-wrong-outcome"), format!("{bad} of the sequential calls did not return the inner service's own outcome; cfg {c:?}"));
+            }
+            rep.count("extreme_service_calls", log.iter().filter(|r| matches!(r.ev, Ev::Resolve { .. })).count() as u64);
+        }
+    }
     rep.count("feedback_steps", steps);
     rep.bucket(format!("extreme:{name}"));
     rep.nontrivial = moved;
